@@ -328,6 +328,7 @@ func (fr *Frame) callByContract(site ssa.Instruction, key string, sp *Block, nam
 		fc.oblige(st, "pre", path+"call:"+short+"/", g, fr.pos(site), "precondition of "+short+": "+c.Text)
 	}
 	pre := st.clone()
+	preNFacts := len(fc.sc.facts)
 	var items []locItem
 	for _, c := range sp.ClausesOf("modifies") {
 		items = append(items, fr.safeEvalLocs(mkEv(st, st), c)...)
@@ -371,6 +372,9 @@ func (fr *Frame) callByContract(site ssa.Instruction, key string, sp *Block, nam
 		if k := strings.Index(c.Text, "("); k > 0 {
 			fr.checkWrite(st, site, locItem{kind: "ghost", ghost: "gmap:" + strings.TrimSpace(c.Text[:k])}, "ghost effect of callee "+short)
 		}
+		if strings.Contains(c.Text, " when ") {
+			continue // applied below, once the results exist
+		}
 		fr.ghostInc(mkEv(pre, pre), c, st)
 	}
 	var res []Val
@@ -383,11 +387,28 @@ func (fr *Frame) callByContract(site ssa.Instruction, key string, sp *Block, nam
 		fc.assume(st, fc.typeFacts(st, v, sig.Results().At(i).Type()))
 	}
 	fr.bindResults(binds, res, sig)
+	for _, c := range sp.ClausesOf("ghostinc") {
+		if strings.Contains(c.Text, " when ") {
+			fr.ghostInc(mkEv(pre, pre), c, st)
+		}
+	}
 	for _, c := range sp.ClausesOf("ensures") {
 		fc.assume(st, fr.safeEvalBool(mkEv(st, pre), c))
 	}
 	if sp.Has("effects", "noreturn") {
 		st.reach = TFalse
+	} else if len(sp.ClausesOf("ensures")) > 0 && len(fr.unrolling) == 0 {
+		// vacuity guard: the callee's contract (posts against its frame) must not make the path infeasible.
+		// One cover per callee and function (the first call site).
+		if fc.callCovered == nil {
+			fc.callCovered = map[string]bool{}
+		}
+		if !fc.callCovered[key] {
+			fc.callCovered[key] = true
+			fc.covers = append(fc.covers, &Obligation{Name: fmt.Sprintf("%s/%scover#call:%s", fc.key, fr.path, short), Kind: "cover", Func: fc.key,
+				NFacts: len(fc.sc.facts), NegGoal: st.reach.S, PreNFacts: preNFacts, PreGoal: pre.reach.S, Script: fc.sc, Pos: fr.pos(site),
+				Desc: "the contract of " + short + " is consistent here (its postconditions do not contradict its frame)"})
+		}
 	}
 	fr.noteEffects(site, sp, short, st)
 	return res
@@ -604,6 +625,9 @@ func (fr *Frame) callFuncValue(site ssa.Instruction, c *ssa.CallCommon, fv Val, 
 		fc.havocItems(st, []locItem{{kind: "any-old"}})
 		fc.hvBound = nil
 	}
+	// the invocation counter is a ghost effect of this function: it must be in its frame (otherwise a contract
+	// that talks about the counter would contradict its own modifies clause at the callers)
+	fr.checkWrite(st, site, locItem{kind: "ghost", ghost: cnt}, "callback counter "+cnt)
 	st.ghosts[cnt] = fc.sc.Define(cnt, Add(n, IntLit(1)))
 	st.next = nn
 	if strings.HasPrefix(rest, "preserves") {
@@ -840,7 +864,18 @@ func (fr *Frame) callBuiltin(site ssa.Instruction, b *ssa.Builtin, c *ssa.CallCo
 // ghostInc implements the clause `ghostinc name(keyexpr)`.
 func (fr *Frame) ghostInc(ev *EvalCtx, c *Clause, st *State) {
 	fc := fr.fc
-	e, err := ParseExpr(c.Text)
+	text := c.Text
+	amount := IntLit(1)
+	if k := strings.Index(text, " when "); k > 0 {
+		// conditional ghost effect: `ghostinc name(keys) when <cond>` (cond may mention the results)
+		ce, err := ParseExpr(strings.TrimSpace(text[k+len(" when "):]))
+		if err != nil {
+			unsup("%s:%d: %v", c.File, c.Line, err)
+		}
+		amount = Ite(ev.evalBool(ce), IntLit(1), IntLit(0))
+		text = strings.TrimSpace(text[:k])
+	}
+	e, err := ParseExpr(text)
 	if err != nil {
 		unsup("%s:%d: %v", c.File, c.Line, err)
 	}
@@ -869,9 +904,9 @@ func (fr *Frame) ghostInc(ev *EvalCtx, c *Clause, st *State) {
 	name := "gmap:" + call.Fn
 	arr := fc.ghostMapIn(st, call.Fn, keys)
 	if len(keys) == 1 {
-		st.ghosts[name] = fc.sc.Define("gmap", Store(arr, keys[0], Add(Select(arr, keys[0]), IntLit(1))))
+		st.ghosts[name] = fc.sc.Define("gmap", Store(arr, keys[0], Add(Select(arr, keys[0]), amount)))
 	} else {
 		row := Select(arr, keys[0])
-		st.ghosts[name] = fc.sc.Define("gmap", Store(arr, keys[0], Store(row, keys[1], Add(Select(row, keys[1]), IntLit(1)))))
+		st.ghosts[name] = fc.sc.Define("gmap", Store(arr, keys[0], Store(row, keys[1], Add(Select(row, keys[1]), amount))))
 	}
 }
